@@ -3,21 +3,33 @@ import TdModel.Lemmas.C24Call
 import TdModel.Lemmas.C24Notif
 namespace TdModel.Rpc
 
-theorem inv_ack {s : State} {ids : List Nat} (h : Inv s) : Inv (stepAck s ids) := by
-  constructor <;> simp [stepAck] <;> grind [Inv]
+theorem inv_ackOne {cfg : Cfg} (hg : cfg.std = true) (s : State) (id : Nat) (h : Inv s) : Inv (ackOne cfg s id).1 := by
+  unfold ackOne
+  by_cases hk : s.ack id = true
+  · simp only [hk, if_true]
+    cases hc : s.calls id with
+    | none => exact h
+    | some c =>
+      have hna := h.ack_unacked id c hk hc
+      simp only [hna, Bool.false_eq_true, if_false]
+      inv_close hg
+  · simp only [hk, if_false]; exact h
+
+theorem inv_ack {cfg : Cfg} (hg : cfg.std = true) {s : State} {ids : List Nat} (h : Inv s) : Inv (stepAck cfg s ids) :=
+  stepAck_induct cfg (inv_ackOne hg) ids s h
 
 theorem inv_cancel {s s' : State} {i : Nat} (h : Inv s) (hs : stepCancel s i = some s') : Inv s' := by
   unfold stepCancel at hs
   split at hs
   · simp at hs
   · split at hs <;> simp at hs <;> subst hs
-    · inv_close True.intro
+    · inv_close0
     · exact h
 
 theorem inv_advance {s : State} {d : Nat} (h : Inv s) : Inv (stepAdvance s d) := by
   constructor <;> simp [stepAdvance, Call.tickTimer] <;> grind [Inv]
 
-theorem inv_step {cfg : Cfg} {s s' : State} {a : Action} (hg : cfg.guard = true) (h : Inv s)
+theorem inv_step {cfg : Cfg} {s s' : State} {a : Action} (hg : cfg.std = true) (h : Inv s)
     (hs : step cfg s a = some s') : Inv s' := by
   cases a <;> simp only [step] at hs
   · exact inv_start h hs
@@ -25,17 +37,18 @@ theorem inv_step {cfg : Cfg} {s s' : State} {a : Action} (hg : cfg.guard = true)
   · exact inv_loop hg h hs
   · exact inv_wait hg h hs
   · exact inv_dret hg h hs
-  · exact inv_gpass h hs
+  · exact inv_gpass hg h hs
   · exact inv_nstart h hs
   · exact inv_nrun h hs
   · exact inv_nwrite h hs
-  · cases hs; exact inv_ack h
+  · cases hs; exact inv_ack hg h
   · exact inv_cancel h hs
   · cases hs; exact inv_advance h
-  · cases hs; constructor <;> simp <;> grind [Inv]
-  · cases hs; constructor <;> simp <;> grind [Inv]
+  · split at hs <;> simp at hs; subst hs; constructor <;> simp <;> grind [Inv]
+  · split at hs <;> simp at hs; subst hs; constructor <;> simp <;> grind [Inv]
+  · split at hs <;> simp at hs; subst hs; constructor <;> simp <;> grind [Inv]
 
-theorem inv_run {cfg : Cfg} (hg : cfg.guard = true) {as : List Action} {s s' : State} (h : Inv s)
+theorem inv_run {cfg : Cfg} (hg : cfg.std = true) {as : List Action} {s s' : State} (h : Inv s)
     (hs : run cfg s as = some s') : Inv s' := by
   induction as generalizing s with
   | nil => simp [run] at hs; subst hs; exact h
@@ -45,7 +58,7 @@ theorem inv_run {cfg : Cfg} (hg : cfg.guard = true) {as : List Action} {s s' : S
     · next s1 h1 => exact ih (inv_step hg h h1) hs
     · simp at hs
 
-theorem reachable_inv {cfg : Cfg} (hg : cfg.guard = true) {s : State} (h : Reachable cfg s) : Inv s := by
+theorem reachable_inv {cfg : Cfg} (hg : cfg.std = true) {s : State} (h : Reachable cfg s) : Inv s := by
   obtain ⟨as, hs⟩ := h
   exact inv_run hg inv_init hs
 
